@@ -26,7 +26,7 @@ when one premise is dropped.
 
 **(B) The regenerated lock facts** (`Zrnt.Gen.LockFacts`, emitted by `go/cmd/extract/lockfacts.go` from /repo's
 current source on every run): `no_reentry`, `guarded_access`, `readers_pure`, `single_section`,
-`no_unsynchronised_handout` state that every exported method of ProtoForkChoice, PubkeyCache, CachedPubkey and
+`no_unsynchronised_handout`, `cross_instance_calls_locked` state that every exported method of ProtoForkChoice, PubkeyCache, CachedPubkey and
 the five pools satisfies the syntactic counterpart of each premise (one kernel-checked `decide` per method in
 `Zrnt.Gen.LockFactsOk`, lifted here). On the tree as first received five of them were false; the `baseline_*`
 theorems prove the negations on the frozen table of that tree, name the model schedule, and the schedules were
@@ -279,11 +279,11 @@ theorem row_ok (r : Nat × Nat) (hr : r ∈ sharedRows all) : methodOk all r.1 r
 theorem exported_ok (r : Nat × Nat) (hr : r ∈ sharedRows all) (he : (getM (getT all r.1) r.2).exported = true) :
     noReentry (getT all r.1) r.2 = true ∧ guardedAccess all (getT all r.1) r.2 = true ∧
     readersPure all (getT all r.1) r.2 = true ∧ singleSection (getT all r.1) r.2 = true ∧
-    noHandout all (getT all r.1) r.2 = true := by
+    noHandout all (getT all r.1) r.2 = true ∧ crossInstanceLocked all (getT all r.1) r.2 = true := by
   have h := row_ok r hr
   simp only [methodOk, methodOkT, he, if_true, Bool.and_eq_true] at h
-  obtain ⟨⟨⟨⟨⟨h1, h2⟩, h3⟩, h4⟩, h5⟩, _⟩ := h
-  exact ⟨h1, h2, h3, h4, h5⟩
+  obtain ⟨⟨⟨⟨⟨⟨h1, h2⟩, h3⟩, h4⟩, h5⟩, _⟩, h7⟩ := h
+  exact ⟨h1, h2, h3, h4, h5, h7⟩
 
 /-- no exported method of a shared component reaches, while holding the component's lock, a method that
 acquires that lock (nor a nested acquire, nor a child-object call that locks this object again) -/
@@ -305,7 +305,16 @@ theorem single_section (r : Nat × Nat) (hr : r ∈ sharedRows all) (he : (getM 
 
 /-- no exported method returns an alias of guarded memory that is written in place -/
 theorem no_unsynchronised_handout (r : Nat × Nat) (hr : r ∈ sharedRows all) (he : (getM (getT all r.1) r.2).exported = true) :
-    noHandout all (getT all r.1) r.2 = true := (exported_ok r hr he).2.2.2.2
+    noHandout all (getT all r.1) r.2 = true := (exported_ok r hr he).2.2.2.2.1
+
+/-- every method an exported method invokes on ANOTHER instance of its type (`pc.parent.…`, a freshly forked
+child) takes that instance's lock around all its accesses to guarded fields: the caller's own lock does not
+protect the other object (an unlocked `unsafe*` helper must never be called across instances) -/
+theorem cross_instance_calls_locked (r : Nat × Nat) (hr : r ∈ sharedRows all) (he : (getM (getT all r.1) r.2).exported = true) :
+    crossInstanceLocked all (getT all r.1) r.2 = true := (exported_ok r hr he).2.2.2.2.2
+
+/-- non-vacuity: the rule has instances in the table (PubkeyCache reaches its parent and forked children) -/
+example : (crossCallees (getT all 1) (fuelOf (getT all 1)) 4).length ≥ 2 := by decide
 
 /-- **Bridge.** Read as monitor code (`Zrnt.Conc.modelCode`: unguarded accesses first, then `acq`, the accesses
 made with the lock held, a second `acq` if the call re-enters, `rel`, further sections), every exported row of
